@@ -1150,14 +1150,12 @@ class _Phase(Flow):
 
 def phase_chain(prog, ci, sh, r, f):
     """walk (phase, chunk size) configurations of the handshake; every fixed-size decode must get exactly its size"""
-    c_len, c_slot = ci.const_node(sh.lenloc), None
     inits_len = [v for g, v in ci.writes_of(sh.lenloc) if g.name == '__init__']
     inits_slot = [v for g, v in ci.writes_of(sh.slotloc) if g.name == '__init__']
     key = f'{f.qname}:phase-chain'
     if len(inits_len) != 1 or len(inits_slot) != 1 or not isinstance(inits_len[0], ast.Constant) or not isinstance(inits_len[0].value, int):
         r.fail(key, where(f), 'the constructor does not set one constant first chunk size and one first phase')
         return
-    del c_len, c_slot
     start = (inits_slot[0].attr, INT(inits_len[0].value))
     seen, todo, bad = [], [start], []
     while todo and len(seen) < 32:
@@ -1205,6 +1203,8 @@ def _rule1(ctx, rep):
         breaks='some way of cutting or coalescing the byte stream yields other messages than whole-message delivery '
         '(short read taken for a unit, unit left in the buffer, header taken for a body)',
     ) as r:
+        r.note('clause "needed recomputed at the end of every iteration" is decided semantically: a stale amount fails consume/exit, '
+               'no particular statement position is required')
         widths = {}
         for q in LOOP_ANCHORS:
             f = prog.func(q)
@@ -1565,6 +1565,8 @@ def _rule2(ctx, rep):
         breaks='an application message is processed before / without a verified handshake, bytes that arrive with the last '
         'handshake packet are lost, or a failed handshake leaves the connection open',
     ) as r:
+        r.note('not required: restoration before residual delivery inside the last phase (the saved bound method is called directly, '
+               'both orders deliver the same bytes); listenTCP/listenSSL selection is outside this rule')
         ps = [p for p in init.params() if p != 'self']
         if len(ps) < 2:
             raise AnalysisError('TwistedWrapper.__init__ no longer takes (protocol, address)')
@@ -1729,7 +1731,7 @@ def _rule3(ctx, rep):
     with rep.rule(
         'R-C14-3',
         'framing agreement: every struct.pack/unpack of the farm, database, log and handshake channels uses big-endian unsigned 4-byte fields',
-        floor=20,
+        floor=17,  # 17 prefix encode/decode sites read today (+3 incidental len(struct.pack(fmt, 0)) width computations)
         breaks='sender and receiver disagree on the width or byte order of the length prefix: the receiver cuts the stream at the wrong places '
         '(the log channel sender is logging.handlers.SocketHandler, which is fixed to ">L")',
     ) as r:
@@ -1916,4 +1918,16 @@ VARIANTS = [
     V('gate: hasattr instead of dir().count', 'N', _S, 'TwistedWrapper.__init__', "0 < dir(protocol).count('dataReceived')", "hasattr(protocol, 'dataReceived')", None),
     V('gate: log sink if/else the other way round', 'N', _L, 'LogSink.__init__', 'if not dawgie.security.use_tls():', 'if dawgie.security.use_tls():\n            pass\n        else:', None),
     V('gate: nested valid tests merged', 'N', _S, 'TwistedWrapper._p5', 'if response.valid:\n            log.debug', 'if response.valid and True:\n            log.debug', None),
+    # ---- R-C14-3
+    V('framing: farm sender little-endian', 'B', 'pl/message.py', 'send', "struct.pack('>I', len(stream))", "struct.pack('<I', len(stream))", 'R-C14-3'),
+    V('framing: db reply with a 2-byte prefix', 'B', _C, 'Worker._send', "struct.pack('>I', len(msg))", "struct.pack('>H', len(msg))", 'R-C14-3'),
+    V('framing: handshake length in native order', 'B', _S, 'TwistedWrapper._p2', "struct.unpack('>I', data)", "struct.unpack('=I', data)", 'R-C14-3'),
+    V('framing: log header little-endian', 'B', _L, 'LogSink.dataReceived', "struct.unpack('>L', self.__buf[:length])", "struct.unpack('<L', self.__buf[:length])", 'R-C14-3'),
+    V('framing: network order spelled !', 'N', 'pl/message.py', 'receive', "struct.unpack('>I', buf)", "struct.unpack('!I', buf)", None),
+    # ---- R-C14-4
+    V('recv: farm client reads the body in one go', 'B', 'pl/message.py', 'receive', 'while len(buf) < length:\n        buf += s.recv(length - len(buf))', 'buf = s.recv(length)', 'R-C14-4'),
+    V('recv: db client header read once', 'B', _C, 'Connector.__do', 'while len(buf) < 4:', 'if len(buf) < 4:', 'R-C14-4'),
+    V('recv: db client asks for the total again', 'B', _C, 'Connector.__do', 'buf += s.recv(length - len(buf))', 'buf += s.recv(length)', 'R-C14-4'),
+    V('recv: (after C14-1) helper asks for the total again', 'B', _S, '_recv_exactly', 'chunk = s.recv(total - len(buf))', 'chunk = s.recv(total)', 'R-C14-4'),
+    V('recv: result through a local', 'N', 'pl/message.py', 'receive', 'buf += s.recv(4 - len(buf))', 'part = s.recv(4 - len(buf))\n        buf += part', None),
 ]
